@@ -336,20 +336,20 @@ Definition new_indexed (needles : list bytes) (ci : bool) : imatcher :=
 
 (* shift[c]: initial value min(minLen,255), lowered by uint8(minLen-1-j) for every needle byte
    n[j] = c, j < minLen (and, case-insensitively, for the upper-case twin of a lower-case n[j]) *)
+Definition shift_step (ml : nat) (ci : bool) (c : N) (st : N * nat) (b : N) : N * nat :=
+  let '(a, j) := st in
+  if (j <? ml)%nat then
+    let sh := N.of_nat (ml - 1 - j) mod 256 in
+    let hit := (b =? c) || (ci && in_rng 97 122 b && (c =? b - 32)) in
+    ((if hit && (sh <? a) then sh else a), S j)
+  else (a, S j).
+
+Definition shift_needle (ml : nat) (ci : bool) (c : N) (acc : N) (n : bytes) : N :=
+  fst (fold_left (shift_step ml ci c) n (acc, 0%nat)).
+
 Definition im_shift (im : imatcher) (c : N) : N :=
-  let ml := im_minlen im in
-  fold_left
-    (fun acc n =>
-       fst (fold_left
-              (fun (st : N * nat) b =>
-                 let '(a, j) := st in
-                 if (j <? ml)%nat then
-                   let sh := N.of_nat (ml - 1 - j) mod 256 in
-                   let hit := (b =? c) || (im_ci im && in_rng 97 122 b && (c =? b - 32)) in
-                   ((if hit && (sh <? a) then sh else a), S j)
-                 else (a, S j))
-              n (acc, 0%nat)))
-    (im_norms im) (N.of_nat (Nat.min ml 255)).
+  fold_left (shift_needle (im_minlen im) (im_ci im) c) (im_norms im)
+            (N.of_nat (Nat.min (im_minlen im) 255)).
 
 Definition eq_seg (ci : bool) (seg n : bytes) : bool :=
   if ci then equal_fold_ascii seg n else bytes_eqb seg n.
@@ -466,6 +466,45 @@ Definition extract_exact (r0 : re) : option (list lrune * bool) :=
   | Cat _ [b; Lit f rs; e] =>
       if is_op0 b OBeginText && is_op0 e OEndText && negb (has_rune_error rs) then Some (rs, f) else None
   | _ => None
+  end.
+
+(* the relation between the two ASTs of an exact-match pattern: "(?sm)"+arguments parses to the
+   same literal between a line (^ $ under (?m)) or text anchor pair.  Checked by the
+   correspondence on every pattern; [num_caps] is the number of capture groups of the engine. *)
+Fixpoint listN_eqb (a b : list N) : bool :=
+  match a, b with
+  | [], [] => true
+  | x :: a', y :: b' => (x =? y) && listN_eqb a' b'
+  | _, _ => false
+  end.
+Definition lrune_eqb (a b : lrune) : bool :=
+  (lr_r a =? lr_r b) && (lr_lo a =? lr_lo b) && listN_eqb (lr_orb a) (lr_orb b).
+Fixpoint lrs_eqb (a b : list lrune) : bool :=
+  match a, b with
+  | [], [] => true
+  | x :: a', y :: b' => lrune_eqb x y && lrs_eqb a' b'
+  | _, _ => false
+  end.
+Definition is_begin (r : re) : bool :=
+  match r with Op0 _ OBeginLine | Op0 _ OBeginText => true | _ => false end.
+Definition is_end (r : re) : bool :=
+  match r with Op0 _ OEndLine | Op0 _ OEndText => true | _ => false end.
+Definition exact_rel (r0 r : re) : bool :=
+  match extract_exact r0 with
+  | None => true
+  | Some (rs, ci) =>
+      match r with
+      | Cat _ [b; Lit f rs'; e] => is_begin b && is_end e && Bool.eqb f ci && lrs_eqb rs rs'
+      | _ => false
+      end
+  end.
+
+Fixpoint num_caps (r : re) : nat :=
+  match r with
+  | Cap _ a => S (num_caps a)
+  | Star _ a | Plus _ a | Quest _ a => num_caps a
+  | Cat _ l | Alt _ l => list_sum (map num_caps l)
+  | _ => 0%nat
   end.
 
 (* strings.EqualFold(value, string(runes)): rune by rune, equal or in the same SimpleFold orbit *)
